@@ -11,12 +11,14 @@ structure GsOk (S : List Req) (gs : List Payload) : Prop where
   inc : ∀ g ∈ gs, g.sids.Pairwise (· < ·)
   nodup : (payloadSids gs).Nodup
   src : ∀ g ∈ gs, ∀ s ∈ g.sids, ∃ r ∈ S, r.sid = s ∧ r.topic = g.tp.topic
+  /-- a payload's messages are its sends' messages, send after send, each value under its call's key -/
+  msgs : ∀ g ∈ gs, ∃ rs : List Req, (∀ r ∈ rs, r ∈ S) ∧ rs.map (·.sid) = g.sids ∧ g.msgs = rs.flatMap (·.wire)
 
 theorem gsOk_nil (S : List Req) : GsOk S [] := by
   constructor <;> simp [payloadSids]
 
-theorem addToGroups_perm (gs : List Payload) (tp : TP) (sid : Sid) (hn : (gs.map (·.tp)).Nodup) :
-    (payloadSids (addToGroups gs tp sid)).Perm (sid :: payloadSids gs) := by
+theorem addToGroups_perm (gs : List Payload) (tp : TP) (sid : Sid) (ms : List Msg) (hn : (gs.map (·.tp)).Nodup) :
+    (payloadSids (addToGroups gs tp sid ms)).Perm (sid :: payloadSids gs) := by
   simp only [addToGroups]
   split
   · rename_i hany
@@ -26,7 +28,7 @@ theorem addToGroups_perm (gs : List Payload) (tp : TP) (sid : Sid) (hn : (gs.map
     | cons g rest ih =>
       simp only [List.map_cons, List.nodup_cons] at hn
       by_cases hgt : g.tp = tp
-      · have hrest : rest.map (fun g => if g.tp = tp then { g with sids := g.sids ++ [sid] } else g) = rest := by
+      · have hrest : rest.map (fun g => if g.tp = tp then { g with sids := g.sids ++ [sid], msgs := g.msgs ++ ms } else g) = rest := by
           conv => rhs; rw [← List.map_id rest]
           apply List.map_congr_left
           intro x hx
@@ -47,11 +49,11 @@ theorem addToGroups_perm (gs : List Payload) (tp : TP) (sid : Sid) (hn : (gs.map
   · simp only [payloadSids, List.flatMap_append, List.flatMap_cons, List.flatMap_nil, List.append_nil]
     exact List.perm_append_singleton _ _
 
-theorem addToGroups_ok (S : List Req) (gs : List Payload) (tp : TP) (sid : Sid) (h : GsOk S gs)
-    (hlt : ∀ x ∈ payloadSids gs, x < sid) (hsrc : ∃ r ∈ S, r.sid = sid ∧ r.topic = tp.topic) :
-    GsOk S (addToGroups gs tp sid) := by
-  have hperm := addToGroups_perm gs tp sid h.tps
-  refine ⟨addToGroups_tps_nodup gs tp sid h.tps, ?_, ?_, ?_, ?_⟩
+theorem addToGroups_ok (S : List Req) (gs : List Payload) (tp : TP) (sid : Sid) (ms : List Msg) (h : GsOk S gs)
+    (hlt : ∀ x ∈ payloadSids gs, x < sid) (hsrc : ∃ r ∈ S, r.sid = sid ∧ r.topic = tp.topic ∧ r.wire = ms) :
+    GsOk S (addToGroups gs tp sid ms) := by
+  have hperm := addToGroups_perm gs tp sid ms h.tps
+  refine ⟨addToGroups_tps_nodup gs tp sid ms h.tps, ?_, ?_, ?_, ?_, ?_⟩
   · intro g hg
     simp only [addToGroups] at hg
     split at hg
@@ -90,12 +92,30 @@ theorem addToGroups_ok (S : List Req) (gs : List Payload) (tp : TP) (sid : Sid) 
         simp only [List.mem_append, List.mem_singleton] at hs
         rcases hs with hs | hs
         · exact h.src g0 hg0 s hs
-        · subst hs; simp only; rw [hgt]; exact hsrc
+        · subst hs; simp only; rw [hgt]; obtain ⟨r, r1, r2, r3, _⟩ := hsrc; exact ⟨r, r1, r2, r3⟩
       · subst he; exact h.src g0 hg0 s hs
     · rcases List.mem_append.mp hg with hg | hg
       · exact h.src g hg s hs
       · simp at hg; subst hg
-        simp at hs; subst hs; exact hsrc
+        simp at hs; subst hs; obtain ⟨r, r1, r2, r3, _⟩ := hsrc; exact ⟨r, r1, r2, r3⟩
+  · obtain ⟨r, r1, r2, _, r4⟩ := hsrc
+    intro g hg
+    simp only [addToGroups] at hg
+    split at hg
+    · obtain ⟨g0, hg0, he⟩ := List.mem_map.mp hg
+      split at he
+      · subst he
+        obtain ⟨rs, m1, m2, m3⟩ := h.msgs g0 hg0
+        refine ⟨rs ++ [r], ?_, by simp [m2, r2], by simp [m3, r4]⟩
+        intro x hx
+        rcases List.mem_append.mp hx with hx | hx
+        · exact m1 x hx
+        · simp at hx; subst hx; exact r1
+      · subst he; exact h.msgs g0 hg0
+    · rcases List.mem_append.mp hg with hg | hg
+      · exact h.msgs g hg
+      · simp at hg; subst hg
+        exact ⟨[r], by simpa using r1, by simp [r2], by simp [r4]⟩
 
 theorem procResults_ok (S : List Req) (ls : List Lookup) (out : List Sid) (gs : List Payload) (h : GsOk S gs)
     (hinc : (ls.map (·.req.sid)).Pairwise (· < ·))
@@ -113,11 +133,11 @@ theorem procResults_ok (S : List Req) (ls : List Lookup) (out : List Sid) (gs : 
     · split
       · rename_i p _
         apply ih _ _ _ hinc.2 _ hsrc'
-        · apply addToGroups_ok S gs _ _ h
+        · apply addToGroups_ok S gs _ _ _ h
           · intro x hx; exact hlt x hx _ List.mem_cons_self
-          · exact ⟨l.req, hsrc l List.mem_cons_self, rfl, rfl⟩
+          · exact ⟨l.req, hsrc l List.mem_cons_self, rfl, rfl, rfl⟩
         · intro x hx y hy
-          rcases List.mem_cons.mp ((addToGroups_perm gs _ _ h.tps).mem_iff.mp hx) with hx | hx
+          rcases List.mem_cons.mp ((addToGroups_perm gs _ _ _ h.tps).mem_iff.mp hx) with hx | hx
           · rw [hx]; exact hinc.1 y hy
           · exact hlt' x hx y hy
       · exact ih _ _ h hinc.2 hlt' hsrc'
@@ -327,7 +347,7 @@ theorem handleSendResponse_g (S : List Req) (P : List Sid) (cfg : Cfg) (st : St)
   | resolved d1 _ _ _ d5 => exact ⟨h.of_eq hq d1, prodOut_of_noshape P (Or.inl d5)⟩
   | retry d1 _ _ _ _ _ _ d8 =>
     refine ⟨h.move hq ?_ ?_ ?_, prodOut_of_noshape P (Or.inr ⟨_, _, d8⟩)⟩
-    · simp only [inflight, d1, hp, popAcked_allSids]
+    · simp only [inflight, d1, hp, keep_allSids]
     · intro ls hc; rw [d1] at hc; cases hc
     · intro b1 hb1
       simp only [batchOf, d1] at hb1
@@ -497,7 +517,7 @@ theorem step_g (S : List Req) (P : List Sid) (cfg : Cfg) (st : St) (e : Ev) (h :
       · rename_i hm
         subst hs'
         obtain ⟨g, p⟩ := checkSendBatch_g S P cfg _
-          (enqueue_g S P st topic key msgs h hk hP (hS _ topic key msgs rfl rfl (by simpa using hm)))
+          (enqueue_g S P st topic key msgs h hk hP (hS _ topic key msgs rfl rfl (by cases h1 : msgs.isEmpty <;> simp [h1] at hm ⊢)))
         exact ⟨g, fun _ => p⟩
   | cancel sid =>
     simp only [step]; split
